@@ -337,15 +337,27 @@ package vegeta
 // Attack$1$1 inlined. The pacer is adversarial (type contract without postcondition); time is the
 // ghost clock (Since/Sleep only give lower bounds). Ghost automaton over scalar ghost variables.
 
+// Stop may be called from any number of goroutines. `shared`/`rely`: between any two atomic actions
+// of this call other Stop calls may run; they only ever set the two flags and keep "closed => done".
 //@ func (*Attacker).Stop
-//@   trusted
-//@   requires a != nil
+//@   property C02
+//@   pragma concurrent yes
+//@   shared done, closed
+//@   rely (forall o ref :: old(done(o)) ==> done(o)) && (forall c ref :: old(closed(c)) ==> closed(c)) && (closed(a.stopch) <==> done(&a.stopOnce))
+//@   requires [non-nil] a != nil && a.stopch != nil
+//@   requires [closed-only-by-the-once] closed(a.stopch) <==> done(&a.stopOnce)
+//@   ghost ran bool
+//@   at close a.stopch: ghost ran = true
+//@   ensures [true-iff-this-call-stopped-the-attack] result == ran
+//@   ensures [stopped-afterwards] done(&a.stopOnce) && closed(a.stopch)
 
 //@ func (*Attacker).Attack$1
 //@   property C02 C03 C04
 //@   requires [captured-non-nil] a != nil && atk != nil && p != nil && wg != nil
 //@   requires [started-in-the-past] atk.began <= clock(0)
 //@   requires [initial-workers-clamped] workers <= a.maxWorkers
+//@   requires [channels-open] ticks != nil && results != nil && !closed(ticks) && !closed(results) && ref(ticks) != ref(results)
+//@   requires [stop-channel] a.stopch != nil && ref(a.stopch) != ref(ticks) && ref(a.stopch) != ref(results) && (closed(a.stopch) <==> done(&a.stopOnce))
 //@   assume   [clock-range] clock(0) - atk.began <= 4611686018427387904 && atk.began >= 0
 //@   modifies workers
 //@   ghost released int
@@ -386,3 +398,4 @@ package vegeta
 //@     invariant workers <= a.maxWorkers && workers == old(workers) + spawned
 //@     invariant lastElapsed <= clock(0) - atk.began && atk.began <= clock(0) && clock(0) >= old(clock(0))
 //@     invariant a == old(a) && atk == old(atk) && p == old(p) && du == old(du) && atk.began == old(atk.began)
+//@     invariant a.stopch == old(a.stopch) && ticks == old(ticks) && results == old(results)
